@@ -88,6 +88,10 @@ LAYOUTS = {
     "tag/Y/M/D": (["tag", "year", "month", "day"], ["{tag}", "{year}", "{month}", "{day}"]),
     "Y/tag/M/D": (["year", "tag", "month", "day"], ["{year}", "{tag}", "{month}", "{day}"]),
     "fix/Y/M/D": (["year", "month", "day"], ["data", "{year}", "{month}", "{day}"]),
+    # non-temporal sub-directories BELOW temporal ones
+    "Y/M/D/tag": (["year", "month", "day", "tag"], ["{year}", "{month}", "{day}", "{tag}"]),
+    "Y/M/tag/D": (["year", "month", "tag", "day"], ["{year}", "{month}", "{tag}", "{day}"]),
+    "Y/doy/tag": (["year", "day", "tag"], ["{year}", "{doy}", "{tag}"]),
 }
 
 START = "{year}{month}{day}{hour}{minute}{second}"
